@@ -259,8 +259,8 @@ func rulePlayLoop(c *Ctx) {
 	name := fname(fn)
 	// the calls may sit in helpers extracted from Write: look at its whole region (the named steps themselves are not looked into)
 	steps := map[string]bool{"update": true, "writeWhenUpdated": true, "getKey": true, "getVelocity": true, "Apply": true}
-	region := c.regionCalls(fn, func(f *ssa.Function) bool { return !f.Object().Exported() && !steps[f.Name()] })
-	tr := &tracer{c: c, stop: func(f *ssa.Function) bool { return steps[f.Name()] || (f.Object() != nil && f.Object().Exported()) }}
+	region := c.regionCalls(fn, func(f *ssa.Function) bool { return !isExportedFn(f) && !steps[f.Name()] })
+	tr := &tracer{c: c, stop: func(f *ssa.Function) bool { return steps[f.Name()] || (isExportedFn(f)) }}
 	first := func(pred func(ssa.CallInstruction) bool) *rcall {
 		for i := range region {
 			if pred(region[i].call) {
@@ -841,32 +841,46 @@ func ruleOpt(c *Ctx) {
 		inst, _ := p.Types.Scope().Lookup("Instance").(*types.TypeName)
 		st := inst.Type().Underlying().(*types.Struct)
 		updates := map[string]string{} // instance field -> cell field
-		for _, ci := range callsIn(up) {
-			if calleeName(ci.Common()) != "util.Opt.Update" {
+		// the five blocks may be folded into one (generic) helper: look at the region and resolve cell, value and guard upwards
+		tr := c.plainTracer()
+		for _, rc := range c.regionCalls(up, nil) {
+			if calleeName(rc.call.Common()) != "util.Opt.Update" {
 				continue
 			}
-			cell, _, ok1 := loadedField(ci.Common().Args[0])
+			args := rc.call.Common().Args
+			cellL := tr.trace(lval{args[0], rc.fn, rc.chain})
+			cell, _, ok1 := loadedField(cellL.v)
 			// value: *instance.F
-			arg := ci.Common().Args[1]
 			fld := ""
-			if ld, ok := arg.(*ssa.UnOp); ok && ld.Op == token.MUL {
-				if n, _, ok := loadedField(ld.X); ok {
+			if ld, ok := args[1].(*ssa.UnOp); ok && ld.Op == token.MUL {
+				pl := tr.trace(lval{ld.X, rc.fn, rc.chain})
+				if n, _, ok := loadedField(pl.v); ok && len(pl.chain) == 0 {
 					fld = n
 				}
 			}
-			if !ok1 || fld == "" {
+			if !ok1 || fld == "" || len(cellL.chain) != 0 {
 				continue
 			}
 			// guarded by instance.F != nil
-			side, ok := c.branchSide(ci.Block(), func(v ssa.Value) bool {
-				b, ok := v.(*ssa.BinOp)
-				if !ok || b.Op != token.NEQ || !isNilConst(b.Y) {
-					return false
+			guarded := false
+			for _, g := range guardsAlong(rc.li(), 0) {
+				gl := tr.trace(g.cond)
+				b, ok := gl.v.(*ssa.BinOp)
+				if !ok || (b.Op != token.NEQ && b.Op != token.EQL) {
+					continue
 				}
-				n, _, ok := loadedField(b.X)
-				return ok && n == fld
-			})
-			if ok && side {
+				x, y := tr.trace(gl.with(b.X)), tr.trace(gl.with(b.Y))
+				if isNilConst(x.v) {
+					x, y = y, x
+				}
+				if !isNilConst(y.v) {
+					continue
+				}
+				if n, _, ok := loadedField(x.v); ok && n == fld && len(x.chain) == 0 && g.want == (b.Op == token.NEQ) {
+					guarded = true
+				}
+			}
+			if guarded {
 				updates[fld] = cell
 			}
 		}
@@ -935,7 +949,7 @@ func ruleOpt(c *Ctx) {
 	c.site(1)
 	if kc := cellClosure["key"]; kc != nil {
 		// the closure may delegate to an extracted helper (writeKeySignature(w, v)): look at its region
-		tr := &tracer{c: c, stop: func(f *ssa.Function) bool { return f.Object() != nil && f.Object().Exported() }}
+		tr := &tracer{c: c, stop: func(f *ssa.Function) bool { return isExportedFn(f) }}
 		var krc, nsrc *rcall
 		region := c.regionCalls(kc, nil)
 		for i := range region {
